@@ -1,4 +1,4 @@
-import QuantemModel.Lemmas.ForwardSpec
+import QuantemModel.Lemmas.ForwardLoss
 /-!
 C02 — the ptychography forward pipeline reproduces independently simulated data.
 
@@ -93,19 +93,9 @@ theorem pattern_eq_spec {R0 R1 : ℕ} (hr : 0 < R0) (hc : 0 < R1) (H W : ℕ) (t
     rw [← hwin] at hw
     obtain ⟨s, _, rfl⟩ := List.mem_map.1 hw
     exact rect_window ..
-  -- one probe mode
-  have hmode : ∀ psi ∈ probesC,
-      Spec.exitWave windows kernels (Spec.translate psi (Num.ofRat (fracPos p.1)) (Num.ofRat (fracPos p.2)))
-        = fftshift2 (overlapProjection1 (windows.map ifftshift2) (kernels.map ifftshift2)
-            (fourierShift (ifftshift2 psi) (Num.ofRat (fracPos p.1)) (Num.ofRat (fracPos p.2)))).2
-      ∧ Rect R0 R1 (overlapProjection1 (windows.map ifftshift2) (kernels.map ifftshift2)
-            (fourierShift (ifftshift2 psi) (Num.ofRat (fracPos p.1)) (Num.ofRat (fracPos p.2)))).2 := by
-    intro psi hpsi
-    obtain ⟨h1, h2⟩ := translate_eq_fourierShift hr hc (hp psi hpsi) (Num.ofRat (fracPos p.1)) (Num.ofRat (fracPos p.2))
-    have := exitWave_eq_overlap hr hc windows kernels _ hw hk (rect_fftshift2 h2)
-    rw [ifftshift2_fftshift2 h2] at this
-    rw [h1]
-    exact this
+  -- one probe mode (placement + multislice, induction on the slices inside `mode_exit`)
+  have hmode := fun psi (hpsi : psi ∈ probesC) =>
+    mode_exit hr hc windows kernels hw hk (hp psi hpsi) (Num.ofRat (fracPos p.1)) (Num.ofRat (fracPos p.2))
   have hlib : (overlapProjection (windows.map ifftshift2) (kernels.map ifftshift2)
         (probeForward (probesC.map ifftshift2) (Num.ofRat (fracPos p.1)) (Num.ofRat (fracPos p.2)))).2
       = probesC.map fun psi => (overlapProjection1 (windows.map ifftshift2) (kernels.map ifftshift2)
@@ -159,5 +149,203 @@ example : ∀ psi ∈ [build 3 4 fun i j => (⟨(i : ℝ), (j : ℝ)⟩ : Cx ℝ
   subst h
   exact rect_build _ _ _
 example : InBox 8 8 ((7 / 2 : ℚ), (25 / 4 : ℚ)) := by unfold InBox; norm_num
+
+/-- predicted patterns are rectangular and non-negative (at least one probe mode) -/
+theorem pattern_rect_nonneg {R0 R1 : ℕ} (hr : 0 < R0) (hc : 0 < R1) (H W : ℕ) (t : List (List (Cx ℝ)))
+    (probesC kernels : List (Img ℝ)) (hp : ∀ psi ∈ probesC, Rect R0 R1 psi) (hk : ∀ K ∈ kernels, Rect R0 R1 K)
+    (hne : probesC ≠ []) (p : ℚ × ℚ) :
+    Rect R0 R1 (Spec.pattern H W R0 R1 t probesC kernels p) ∧ NonNeg (Spec.pattern H W R0 R1 t probesC kernels p) := by
+  rw [← pattern_eq_spec hr hc H W t probesC kernels hp hk p]
+  refine ⟨?_, detector_nonNeg _⟩
+  unfold forwardPattern
+  have hpatch : objPatches t (patchIndices2 p.1 p.2 R0 R1 H W)
+      = (t.map fun s => Spec.window s H W (roundHalfEven p.1) (roundHalfEven p.2) R0 R1).map ifftshift2 := by
+    unfold objPatches
+    rw [List.map_map]
+    apply List.map_congr_left
+    intro s _
+    exact gatherPatch_patchIndices s p.1 p.2 R0 R1 H W
+  rw [hpatch]
+  generalize hwin : (t.map fun s => Spec.window s H W (roundHalfEven p.1) (roundHalfEven p.2) R0 R1) = windows
+  have hw : ∀ w ∈ windows, Rect R0 R1 w := by
+    intro w hw
+    rw [← hwin] at hw
+    obtain ⟨s, _, rfl⟩ := List.mem_map.1 hw
+    exact rect_window ..
+  generalize hlibw : windows.map ifftshift2 = lw
+  apply rect_detector hr hc
+  · intro w hw'
+    simp only [overlapProjection, probeForward, List.map_map, List.mem_map] at hw'
+    obtain ⟨psi, hpsi, rfl⟩ := hw'
+    simp only [Function.comp]
+    rw [← hlibw]
+    exact (mode_exit hr hc _ kernels hw hk (hp psi hpsi) _ _).2
+  · cases probesC with
+    | nil => exact absurd rfl hne
+    | cons a l => simp [overlapProjection, probeForward]
+
+/-! ## 3. preprocessing of the measured data -/
+
+/-- **`no_shift` preprocessing is the identity for every detector size** (the centre is `shape // 2`,
+the pixel `fftshift` centres the zero frequency on): the centred amplitudes are `√I` and, for
+non-negative data, the centred intensities are the data.  Shift by `−⌊N/2⌋` is an integer roll
+(C16 `shift_int_real`), `roll(−⌊N/2⌋) = ifftshift`, `fftshift ∘ ifftshift = id`. -/
+theorem no_shift_preprocessing_identity {R0 R1 : ℕ} (hr : 0 < R0) (hc : 0 < R1) {I : RImg ℝ} (hI : Rect R0 R1 I)
+    (data : List (RImg ℝ)) :
+    centredAmplitude I (comFit .noShift data R0 R1).1 (comFit .noShift data R0 R1).2 = rawAmplitude I
+      ∧ (NonNeg I → centredIntensity I (comFit .noShift data R0 R1).1 (comFit .noShift data R0 R1).2 = I) :=
+  ⟨centredAmplitude_noShift hr hc hI, fun h => centredIntensity_noShift hr hc hI h⟩
+
+/-- `shift_array` (NumPy, one exponential of the summed phase) is the Fourier shift of the C16 model -/
+theorem shift_array_is_fourier_shift {nr nc : ℕ} (hr : 0 < nr) {x : RImg ℝ} (hx : Rect nr nc x) (rs cs : ℝ) :
+    shiftArray x rs cs = fourierShiftReal x rs cs := shiftArray_eq_fourierShiftReal hr hx rs cs
+
+-- non-vacuity: a rectangular non-negative 3 × 2 pattern (odd × even)
+example : Rect 3 2 ([[0, 1], [2, 0], [5, 3]] : RImg ℝ) ∧ NonNeg ([[0, 1], [2, 0], [5, 3]] : RImg ℝ) := by
+  refine ⟨⟨rfl, ?_⟩, ?_⟩
+  · intro row hrow
+    simp only [List.mem_cons, List.mem_nil_iff, or_false] at hrow
+    rcases hrow with rfl | rfl | rfl <;> rfl
+  · intro row hrow a ha
+    simp only [List.mem_cons, List.mem_nil_iff, or_false] at hrow
+    rcases hrow with rfl | rfl | rfl <;>
+      (simp only [List.mem_cons, List.mem_nil_iff, or_false] at ha; rcases ha with rfl | rfl <;> norm_num)
+
+/-! ## 4. the losses at the ground truth -/
+
+/-- **loss_zero**: if the targets are the library's preprocessing (`no_shift`) of the data simulated
+by the specification, then both INTENSITY losses of the pipeline evaluated at the ground truth are
+exactly zero — for every batch of in-box scan positions, detector mask, batch fraction `b/n` and mean
+intensity, every ROI size, any number of slices and modes. -/
+theorem loss_zero {R0 R1 : ℕ} (hr : 0 < R0) (hc : 0 < R1) (H W : ℕ) (t : List (List (Cx ℝ)))
+    (probesC kernels : List (Img ℝ)) (hp : ∀ psi ∈ probesC, Rect R0 R1 psi) (hk : ∀ K ∈ kernels, Rect R0 R1 K)
+    (hne : probesC ≠ []) (batch : List (ℚ × ℚ)) (hpos : ∀ p ∈ batch, InBox H W p)
+    (lt : LossType) (hlt : lt.isAmplitude = false) (mask : RImg ℝ) (n : ℕ) (meanI : ℝ) :
+    lossBatch lt (forward H W R0 R1 t (probesC.map ifftshift2) (kernels.map ifftshift2) batch)
+      ((Spec.simulate H W R0 R1 t probesC kernels batch).map fun I =>
+        target lt I (comFit .noShift (Spec.simulate H W R0 R1 t probesC kernels batch) R0 R1).1
+          (comFit .noShift (Spec.simulate H W R0 R1 t probesC kernels batch) R0 R1).2) mask n meanI = 0 := by
+  rw [forward_eq_spec hr hc H W t probesC kernels hp hk batch hpos]
+  have htargets : ((Spec.simulate H W R0 R1 t probesC kernels batch).map fun I =>
+        target lt I (comFit .noShift (Spec.simulate H W R0 R1 t probesC kernels batch) R0 R1).1
+          (comFit .noShift (Spec.simulate H W R0 R1 t probesC kernels batch) R0 R1).2)
+      = Spec.simulate H W R0 R1 t probesC kernels batch := by
+    conv_rhs => rw [← List.map_id (Spec.simulate H W R0 R1 t probesC kernels batch)]
+    apply List.map_congr_left
+    intro I hI
+    unfold Spec.simulate at hI
+    obtain ⟨p, _, rfl⟩ := List.mem_map.1 hI
+    obtain ⟨h1, h2⟩ := pattern_rect_nonneg hr hc H W t probesC kernels hp hk hne p
+    unfold target
+    rw [hlt]
+    simp only [Bool.false_eq_true, if_false, id]
+    exact centredIntensity_noShift hr hc h1 h2
+  rw [htargets]
+  exact lossBatch_intensity_self lt hlt _ mask n meanI
+
+/-- **amplitude-loss residual**: with the amplitude targets `√I` of the same data the per-pixel term of
+the l2-amplitude loss is not zero but `(m·(√(I+ε) − √I))²` with the code's `ε = 1e-9` inside the square
+root, bounded by `m²·ε`; the l1-amplitude term is `|m|·(√(I+ε) − √I)`. -/
+theorem amplitude_loss_residual {x m : ℝ} (hx : 0 ≤ x) :
+    lossTerm .l2Amplitude x (Real.sqrt x) m = (m * (Real.sqrt (x + 1 / 10 ^ 9) - Real.sqrt x)) ^ 2
+      ∧ lossTerm .l2Amplitude x (Real.sqrt x) m ≤ m ^ 2 * (1 / 10 ^ 9)
+      ∧ lossTerm .l1Amplitude x (Real.sqrt x) m = |m| * (Real.sqrt (x + 1 / 10 ^ 9) - Real.sqrt x) := by
+  have heps : (epsLoss : ℝ) = 1 / 10 ^ 9 := by simp [epsLoss]
+  have hres := sqrt_residual_sq_le hx (show (0 : ℝ) ≤ 1 / 10 ^ 9 by positivity)
+  have hge : 0 ≤ Real.sqrt (x + 1 / 10 ^ 9) - Real.sqrt x :=
+    sub_nonneg.2 (Real.sqrt_le_sqrt (by linarith [show (0 : ℝ) ≤ 1 / 10 ^ 9 by positivity]))
+  have h2 : lossTerm .l2Amplitude x (Real.sqrt x) m = (m * (Real.sqrt (x + 1 / 10 ^ 9) - Real.sqrt x)) ^ 2 := by
+    simp only [lossTerm, lossPred, LossType.isAmplitude, LossType.isL1, heps, Num.sq, NumReal.sub_eq, NumReal.mul_eq,
+      NumReal.add_eq, NumReal.sqrt_eq, NumReal.abs_eq, if_true, Bool.false_eq_true, if_false, abs_mul_abs_self]
+    ring
+  refine ⟨h2, ?_, ?_⟩
+  · rw [h2, mul_pow]
+    exact mul_le_mul_of_nonneg_left hres (sq_nonneg m)
+  · simp only [lossTerm, lossPred, LossType.isAmplitude, LossType.isL1, heps, NumReal.sub_eq, NumReal.mul_eq,
+      NumReal.add_eq, NumReal.sqrt_eq, NumReal.abs_eq, if_true]
+    rw [← sub_mul, abs_mul, abs_of_nonneg hge, mul_comm]
+
+/-- **loss ≥ 0** for every loss type, batch, mask and batch fraction (mean intensity `≥ 0`) -/
+theorem loss_nonneg (lt : LossType) (preds targets : List (RImg ℝ)) (mask : RImg ℝ) (n : ℕ) {meanI : ℝ}
+    (hm : 0 ≤ meanI) : 0 ≤ lossBatch lt preds targets mask n meanI :=
+  lossBatch_nonneg lt preds targets mask n hm
+
+/-- **equality iff the amplitudes (intensities) match on the unmasked detector**: the summed loss terms
+of one pattern vanish iff at every pixel `mask·pred' = mask·target`, where `pred'` is the prediction
+as the loss sees it (`√(I+ε)` for amplitude losses).  All four loss types, every ROI size. -/
+theorem loss_eq_zero_iff (lt : LossType) {R0 R1 : ℕ} (p t m : ℕ → ℕ → ℝ) :
+    lossTermsImg lt (build R0 R1 p) (build R0 R1 t) (build R0 R1 m) = 0
+      ↔ ∀ i < R0, ∀ j < R1, lossPred lt (p i j) * m i j = t i j * m i j := by
+  rw [lossTermsImg_build]
+  rw [Finset.sum_eq_zero_iff_of_nonneg (fun i _ => Finset.sum_nonneg fun j _ => lossTerm_nonneg ..)]
+  constructor
+  · intro h i hi j hj
+    have := (Finset.sum_eq_zero_iff_of_nonneg (fun j _ => lossTerm_nonneg lt (p i j) (t i j) (m i j))).1
+      (h i (Finset.mem_range.2 hi)) j (Finset.mem_range.2 hj)
+    exact (lossTerm_eq_zero_iff ..).1 this
+  · intro h i hi
+    apply Finset.sum_eq_zero
+    intro j hj
+    exact (lossTerm_eq_zero_iff ..).2 (h i (Finset.mem_range.1 hi) j (Finset.mem_range.1 hj))
+
+/-! ## 5. normalisation -/
+
+/-- **normalisation, one pattern**: for a unit-amplitude object (every transmission pixel of modulus one,
+any object type once written as transmission) and unit-modulus propagators, the summed predicted
+intensity at ANY scan position equals the total intensity of the probe modes (C16 `purephase_energy`
+through the pipeline's own patch indices, which always address the object). -/
+theorem normalisation {R0 R1 H W : ℕ} (hr : 0 < R0) (hc : 0 < R1) (hH : 0 < H) (hW : 0 < W)
+    (t : List (List (Cx ℝ))) (ht : ∀ s ∈ t, s.length = H * W ∧ ∀ z ∈ s, Cx.abs2 z = 1)
+    (probes props : List (Img ℝ)) (hprobes : ∀ q ∈ probes, Rect R0 R1 q)
+    (hprops : ∀ P ∈ props, Rect R0 R1 P ∧ UnitModulus P) (pr pc : ℚ) (fr fc : ℝ) :
+    rsum (forwardPattern t (patchIndices2 pr pc R0 R1 H W) probes props fr fc) = (probes.map energy).sum :=
+  QuantemModel.Props.C16.purephase_energy_shifted hr hc _ props probes fr fc
+    (objPatches_unit hH hW R0 R1 t ht pr pc) hprops hprobes
+
+/-- **mean pattern intensity = Σ|probe|²**: `mean_diffraction_intensity` of the data predicted for a
+non-empty scan is the total probe intensity — the value the library rescales its probe to. -/
+theorem mean_intensity_eq_probe_intensity {R0 R1 H W : ℕ} (hr : 0 < R0) (hc : 0 < R1) (hH : 0 < H) (hW : 0 < W)
+    (t : List (List (Cx ℝ))) (ht : ∀ s ∈ t, s.length = H * W ∧ ∀ z ∈ s, Cx.abs2 z = 1)
+    (probes props : List (Img ℝ)) (hprobes : ∀ q ∈ probes, Rect R0 R1 q)
+    (hprops : ∀ P ∈ props, Rect R0 R1 P ∧ UnitModulus P) (positions : List (ℚ × ℚ)) (hne : positions ≠ []) :
+    meanDiffractionIntensity (forward H W R0 R1 t probes props positions) = (probes.map energy).sum := by
+  unfold meanDiffractionIntensity forward
+  rw [List.map_map, numSum_eq, List.length_map]
+  have hconst : ∀ p0 ∈ positions, ((fun I : RImg ℝ => rsum (I.map (·.map max0))) ∘ fun p0 =>
+      forwardPattern t (patchIndices2 (clipPosition H W p0).1 (clipPosition H W p0).2 R0 R1 H W) probes props
+        (Num.ofRat (fracPos (clipPosition H W p0).1)) (Num.ofRat (fracPos (clipPosition H W p0).2))) p0
+      = (probes.map energy).sum := by
+    intro p0 _
+    simp only [Function.comp]
+    rw [map_max0_of_nonNeg (by unfold forwardPattern; exact detector_nonNeg _)]
+    exact normalisation hr hc hH hW t ht probes props hprobes hprops _ _ _ _
+  rw [sum_map_const _ _ _ hconst]
+  have hlen : (positions.length : ℝ) ≠ 0 := by
+    have : positions.length ≠ 0 := fun h => hne (List.length_eq_zero_iff.1 h)
+    exact_mod_cast this
+  simp only [NumReal.div_eq, NumReal.ofNat_eq]
+  field_simp
+
+/-! ## 6. geometry -/
+
+/-- **the padded object shape is a multiple of 8** whatever padding is requested
+(`adjust_padding_power2` at level 3 on the even crop shape) -/
+theorem obj_shape_multiple_of_8 (g : Geometry) : g.H % 8 = 0 ∧ g.W % 8 = 0 := by
+  have key : ∀ c p : ℕ, c % 2 = 0 → fullShapeAxis c (adjustPad c p) % 8 = 0 := by
+    intro c p hc
+    unfold fullShapeAxis adjustPad
+    simp only
+    split_ifs with h <;> omega
+  have hev : ∀ (gp : ℕ) (s d : ℚ), cropShapeAxis gp s d % 2 = 0 := by
+    intro gp s d
+    unfold cropShapeAxis
+    simp only
+    omega
+  exact ⟨key _ _ (hev _ _ _), key _ _ (hev _ _ _)⟩
+
+-- non-vacuity: a geometry with fractional step whose requested padding (2,3) is enlarged
+example : (({ gr := 4, gc := 3, stepR := 7 / 4, stepC := 3 / 2, sampR := 1, sampC := 1 / 2, R0 := 8, R1 := 6, padR := 2, padC := 3 } : Geometry).padUsedR,
+           ({ gr := 4, gc := 3, stepR := 7 / 4, stepC := 3 / 2, sampR := 1, sampC := 1 / 2, R0 := 8, R1 := 6, padR := 2, padC := 3 } : Geometry).H) = (5, 16) := by
+  decide +kernel
 
 end QuantemModel.Props.C02
